@@ -27,6 +27,7 @@ class Unit:
         self.no_contract_for = tuple(no_contract_for)  # callees to inline instead of using their contract
         self.max_paths = max_paths
         self.case = tuple(case)  # one arm of an exhaustive case split (extra pre-state assumptions)
+        self.relational = None  # (contract, receiver, tag_a, tag_b, confirm): compare this unit's function under a second receiver
 
 
 _W = None
@@ -45,6 +46,12 @@ def _run_one(i):
                 I.contract_filter = lambda q, u=u: q not in u.no_contract_for
             if u.setup:
                 u.setup(I)
+        if u.relational:
+            from . import relational
+            ctb, rb, ta, tb, confirm = u.relational[:5]
+            extra = u.relational[5] if len(u.relational) > 5 else {}
+            obs, st = relational.compare(_W, f, (u.contract, u.receiver, ta), (ctb, rb, tb), u.case, confirm, **extra)
+            return i, obs, st, None
         obs, st = spec.verify_unit(_W, f, u.contract, receiver=u.receiver, unit_name=u.name, setup=setup, max_paths=u.max_paths, case=u.case)
         out = []
         for o in obs:
@@ -257,7 +264,7 @@ def check_property(mod, world, tier="quick", seed=0):
 
     def retag(o):
         if o["tag"] in ("property", "helper"):
-            o["tag"] = "property" if own & set(o["name"].split("/")[0].split("+")) else "helper"
+            o["tag"] = "property" if own & set(o["name"].split("/")[0].split("+")) and (not hasattr(mod, "owns") or mod.owns(o)) else "helper"
     for o in obligs:
         retag(o)
     kf = load_known_findings()
